@@ -669,11 +669,11 @@ def r_serde(F, V):
         if "deserialize_in_place" in p:
             clr = [i for i, t in b.calls() if (callee_path(t) or "").endswith("::clear")]
             key = "%s|clear" % p.split("::", 2)[2]
-            first_ins = [i for i, _ in ins]
+            first_ins = [i for i, _ in ins] + [i for i, t in b.calls() if t["f"].get("method") in ("next_element", "next_entry", "next_key", "next_value")]
             if clr and all(any(b.dominates(c, i) for c in clr) for i in first_ins):
                 R.inst(key, "deserialize_in_place clears the target before refilling", "ok", True, where(b, bb=clr[0]))
             else:
-                R.violation(key, b, "deserialize_in_place does not clear the target before inserting: the result is the union of the old and the new contents")
+                R.violation(key, b, "deserialize_in_place does not clear the target before reading/inserting any element: old contents survive (for empty input entirely), so the result is not the deserialised value")
                 R.inst(key, "target not cleared", "violation", True, where(b))
     # cautious is min(hint, small constant)
     c = F.bodies.get("external_trait_impls::serde::size_hint::cautious")
